@@ -12,7 +12,8 @@
                     and to patterns that occur nowhere:
                     <<"W", index, rules, WellFormed, why, NoSelfSigner>>
    Mode "trees"     the small trees of LvsTree (sane ones and every single parent-link corruption):
-                    <<"T", index, tree, Sane, why, [name index |-> walk result], CompilerShaped>>
+                    <<"T", index, tree, Sane, why, [name index |-> walk result], CompilerShaped,
+                      [name index |-> walk result when the checker's table is EnumTab]>>
    Stride / Offset select every Stride-th input (quick tier); Stride = 1 is the whole family. *)
 EXTENDS LvsTree
 
@@ -122,10 +123,13 @@ PathTags(M, i) == IF i = M.start THEN {}
                        IN PathTags(M, par) \cup {pp[j].tag : j \in {q \in 1..Len(pp) : pp[q].dest = i}}
 CompilerShaped(M) == \A i \in Reach(M) : \A j \in 1..Len(NodeAt(M, i).p) :
                         NodeAt(M, i).p[j].tag \in PathTags(M, i) => Len(NodeAt(M, i).p[j].cons) = 0
-ExpTree(i) == LET M == TreeList[i] IN
+(* the same tree read by a second checker whose dictionary gives the identifier $eq another function *)
+EnumTab == ("$eq" :> "$ne")
+ExpTree(i) == LET M == TreeList[i]  M2 == RetabTree(M, EnumTab) IN
   <<"T", i, M, Sane(M), WhyInsane(M),
     IF Sane(M) THEN [ni \in 1..Len(ENames) |-> Walk(M, ENames[ni], M.start, 0, EmptyTCtx, NoDev)] ELSE <<>>,
-    IF Sane(M) THEN CompilerShaped(M) ELSE FALSE >>
+    IF Sane(M) THEN CompilerShaped(M) ELSE FALSE,
+    IF Sane(M) /\ Corrupt = "none" THEN [ni \in 1..Len(ENames) |-> Walk(M2, ENames[ni], M2.start, 0, EmptyTCtx, NoDev)] ELSE <<>> >>
 
 VARIABLE ix
 EInit == /\ ix \in Picked
